@@ -419,3 +419,37 @@ def check_scrub_release_extent_sum(ctx, inst):
                         six = y.a[1]
                 ctx.check(base.key() == start.key() and ix is not None and six is not None and ix.key() == six.key(), inst, "PROVENANCE", b.path,
                           "the run starts as (first member's sector) + (first member's extent length)", b.where(r), {"init": o.show()[:120]})
+
+
+def check_recovery_release_len(ctx, inst):
+    """recovery gives an *owned* extent (one whose start is a Record.sector load) back to the free-space manager with the
+    length of that very generation: count = ceil(RecordFormat::total_size(len(G.key), G.value_len) / BLOCK) where G is the record
+    whose sector is released. A length taken from another generation (the winner that displaced it, the record being scanned)
+    frees blocks behind the extent that belong to a neighbour: nothing is damaged at once, the next allocation overwrites an
+    acknowledged record."""
+    n_sites = 0
+    for fn in ("FeoxStore::scan_and_rebuild_indexes", "FeoxStore::remove_expired_recovery_winners"):
+        b = ctx.fn(fn, inst)
+        if b is None:
+            continue
+        for n in b.calls():
+            if not R.call_matches(n.ev, "FreeSpaceManager::release_sectors"):
+                continue
+            start = R.arg_expr(b, n, 1)
+            count = R.arg_expr(b, n, 2)
+            def bases(e, field):
+                return {x.a[0].key() for x in e.walk() if x.k == "field" and x.a and x.extra[1] == field and (x.extra[0] or "").endswith("Record")}
+            sb = bases(start, "sector")
+            if not sb:
+                continue        # a gap release (start is the scan cursor): C05.recovery-gaps
+            n_sites += 1
+            ts = [c for c in count.walk() if c.k == "call" and path_matches(c.extra, "RecordFormat::total_size")]
+            shape = len(ts) == 1 and count.has_call("div_ceil") and not any(x.k == "bin" for x in count.walk())
+            ctx.check(shape, inst, "PROVENANCE", b.path, "an owned extent is released with ceil(RecordFormat::total_size / BLOCK) blocks, nothing added or subtracted",
+                      b.where(n.id), {"count": count.show()[:160]})
+            if shape:
+                kb, vb = bases(ts[0].a[1], "key"), bases(ts[0].a[2], "value_len")
+                same = len(sb) == 1 and kb == sb and vb == sb
+                ctx.check(same, inst, "PROVENANCE", b.path, "start and length of a released extent describe the same generation (sector, key and value_len of one record)",
+                          b.where(n.id), {"start": start.show()[:120], "count": count.show()[:160]})
+    ctx.check(n_sites >= 2, inst, "anchor", "-", "owned-extent releases in recovery (>= 2, found %d)" % n_sites, None)
